@@ -681,7 +681,20 @@ Record opobs := mkOpobs {
   oo_vars : osnap;
   oo_push : option opush }.                    (* None: no message seen (injected body, GO_ERROR) *)
 
-Record obs := mkObs { ob_recs : list orec; ob_ops : list opobs; ob_crashed : bool; ob_hung : bool }.
+(* ob_awaits: the await point every call role ended up with once the workflow was built / loaded
+   from YAML (hook id, point) *)
+Fixpoint find_hook_pre (hooks : list hook) (id : N) : option hook :=
+  match hooks with [] => None | h :: r => if h_id h =? id then Some h else find_hook_pre r id end.
+
+Record obs := mkObs { ob_recs : list orec; ob_ops : list opobs; ob_crashed : bool; ob_hung : bool;
+                      ob_awaits : list (N * point) }.
+
+(* the await point a call hook is given is the declared one; a hook written without an await is
+   awaited at its trigger point, weight included (callRole.UnmarshalYAML default) *)
+Definition awaits_ok (hooks : list hook) (o : obs) : bool :=
+  forallb (fun a => match find_hook_pre hooks (fst a) with
+                    | Some hk => point_eqb (h_await hk) (snd a)
+                    | None => true end) (ob_awaits o).
 
 Inductive c08_case :=
 | CParse (s : str) (name : str) (w : Z)
@@ -916,7 +929,7 @@ Definition corr08 (c : c08_case) : bool :=
     if existsb (fun t => match t with TUnsure _ => true | _ => false end) (full_trace l)
     then true   (* which collector receives a termination is up to the Go runtime: no claim *)
     else if model_crashed l then ob_crashed o
-    else negb (ob_crashed o) && negb (ob_hung o) &&
+    else negb (ob_crashed o) && negb (ob_hung o) && awaits_ok hooks o &&
          ops_match ops l (ob_ops o) &&
          conf (ob_recs o) (mkCst (full_trace l) [] [] [])
   end.
@@ -976,6 +989,10 @@ Definition is_OM_begin (n : stepname) (r : orec) : bool :=
          10 a call left callsPendingAwait during an operation (taken as collected) although its
             function had not returned by the end of the operation
          11 a teardown that succeeded did not run a declared DESTROY / after_DESTROY call hook
+         14 (mon08x) a failing critical call was collected but its result was lost: the operation that
+            took it returned no error
+         13 a call hook was given another await point than the declared one (a hook written without
+            an await is awaited at its trigger point, weight included)
          12 ascending weights include the weights at which calls are only awaited: a call whose
             await point (moment, W) was due in this operation had not returned when a hook triggered
             at the same moment with a weight > W began                                       *)
@@ -1222,6 +1239,7 @@ Definition mon08 (c : c08_case) : N :=
     end
   | CRun hooks init ops o =>
     if ob_crashed o || ob_hung o then 8
+    else if negb (awaits_ok hooks o) then 13
     else mon08_ops hooks ops (ob_ops o) (split_ops (ob_recs o) [] false) [] init [] 0
   end.
 
@@ -1456,6 +1474,10 @@ Definition mon09 (c : c08_case) : N :=
           9 crash or hang
          10 the run was ended by forcing the ERROR state after a failed GO_ERROR: end timestamps
             missing, number kept
+         13 a call hook was given another await point than the declared one: a hook written without an
+            await (the usual way in YAML) is awaited at its trigger point, weight included, so that a
+            negative-weight before_START_ACTIVITY hook has completed before the run number and the
+            start stamp are assigned
          12 what the tasks were told with the START_ACTIVITY / STOP_ACTIVITY transition disagrees with
             the variables of this run: run number, start stamp, end stamp (also a cleared, empty
             one must be pushed as such - otherwise the task keeps the value of the previous run),
@@ -1624,6 +1646,7 @@ Definition mon10 (c : c08_case) : N :=
   | CParse _ _ _ => 0
   | CRun hooks init ops o =>
     if ob_crashed o || ob_hung o then 9
+    else if negb (awaits_ok hooks o) then 13
     else mon10_ops hooks ops (ob_ops o) (split_ops (ob_recs o) [] false) init osnap0 0 0 0
   end.
 
@@ -1652,6 +1675,13 @@ Definition tag08 (c : c08_case) : N :=
     (if existsb (fun op => match o_body op with BOk => false | _ => true end) ops then 128 else 0)
   end.
 
-Definition report08 := report corr08 mon08 tag08.
+(* mon08 code 14: collected with its own result - a failing critical call whose result was taken in an
+   operation (however long after it returned) makes that operation return an error (the check is
+   C09's code 6, evaluated here for C08's histories with pauses between start and await point) *)
+Definition mon08x (c : c08_case) : N :=
+  let m := mon08 c in
+  if m =? 0 then (if mon09 c =? 6 then 14 else 0) else m.
+
+Definition report08 := report corr08 mon08x tag08.
 Definition report09 := report corr08 mon09 tag08.
 Definition report10 := report corr08 mon10 tag08.
